@@ -167,10 +167,55 @@ def run_cases(impl, cfg, cred, cases, out, stats):
             w.teardown()
 
 
+def run_pairs(impl, cfg, out, stats):
+    """Two requests on one server: the verdict on the second depends on the second alone (the policy keeps no
+    memory of hosts / forwarded headers seen earlier)."""
+    firsts = [(xfp, xfh, o1, k1) for xfp in (None, 'https') for xfh in (None, 'pub.example', 'evil.example')
+              for o1 in (None, 'fwd') for k1 in ('open', 'options') if (xfp or xfh)]
+    seconds = ['http://h', 'http://pub.example', 'https://pub.example', 'http://evil.example', 'https://h', LISTED, None]
+    for xfp, xfh, o1, k1 in firsts:
+        for o2 in seconds:
+            for k2 in ('open', 'poll'):
+                w, sid = prepare(impl, cfg, True)
+                stats['worlds'] += 1
+                try:
+                    fwd = '%s://%s' % (first(xfp) if xfp else 'http', first(xfh) if xfh else 'h')
+                    issue(w, impl, k1, sid, request_headers(fwd if o1 else None, 'h', xfp, xfh), 'h')
+                    cls = classify(o2, cfg, 'h', None, None)
+                    before = snapshot(w)
+                    h = issue(w, impl, k2, sid, request_headers(o2, 'h', None, None), 'h')
+                    stats['requests'] += 2
+                    rh = h.resp_headers or []
+                    acao = [v for k, v in rh if k.lower() == 'access-control-allow-origin']
+                    text = None
+                    if h.exc:
+                        text = ('exception_escaped', 'raised %s' % h.exc['type'])
+                    elif cls == 'disallowed' and (h.status != 400 or snapshot(w) != before):
+                        text = ('disallowed_origin_admitted', 'status %r (state changed: %s)' % (h.status, snapshot(w) != before))
+                    elif cls == 'disallowed' and acao:
+                        text = ('acao_overgrant', 'Access-Control-Allow-Origin %r' % acao)
+                    elif cls in ('allowed', 'absent') and h.status != 200:
+                        text = ('allowed_origin_refused', 'status %r' % h.status)
+                    if text:
+                        out.append(report.Violation(
+                            {'impl': impl, 'kind': text[0], 'trigger': 'request_pair cfg=%s' % cfg},
+                            '[%s cfg=%s] after a %s request with X-Forwarded-Proto=%r X-Forwarded-Host=%r Origin=%r, a %s request with '
+                            'Origin=%r and no forwarded headers: %s' % (impl, cfg, k1, xfp, xfh, fwd if o1 else None, k2, o2, text[1]),
+                            {'harness': 'pair', 'impl': impl, 'cfg': cfg}, weight=(1, 0)))
+                finally:
+                    w.teardown()
+
+
 def _work(chunk):
     out = []
     stats = {'worlds': 0, 'requests': 0}
     for impl, cfg, cred, cases in chunk:
+        if cases == 'PAIRS':
+            try:
+                run_pairs(impl, cfg, out, stats)
+            except report.Livelock as e:
+                out.append(report.livelock_violation(impl, e, {'harness': 'pair', 'impl': impl, 'cfg': cfg}))
+            continue
         try:
             run_cases(impl, cfg, cred, cases, out, stats)
         except report.Livelock as e:
@@ -194,6 +239,9 @@ def run(ctx):
                     return classify(origin_value(o, host, xfp, xfh), cfg, host, xfp, xfh) != 'disallowed'
                 for part in parallel.split(sorted(prod, key=key), 4):
                     jobs.append((impl, cfg, cred, sorted(part, key=key)))
+    for impl in ('sync', 'async'):
+        for cfg in ('none', 'string', 'list', 'callable'):
+            jobs.append((impl, cfg, True, 'PAIRS'))
     res = parallel.pmap_chunks(_work, [[j] for j in jobs], ctx.workers, ctx.seed, maxtasks=4)
     tot = {}
     nv = 0
@@ -208,7 +256,8 @@ def run(ctx):
         'distinct_nontrivial': tot['requests'] - tot.get('absent', 0),
         'rule': 'cors_allowed_origins {None,*,string,list,callable,[]} x credentials x 13 Origin values x Host {h, absent} x '
                 'X-Forwarded-Proto(%d) x X-Forwarded-Host(%d) x request kind {open, poll, post with a MESSAGE, '
-                'WebSocket upgrade, OPTIONS, OPTIONS+sid} x {Server, AsyncServer}. Non-trivial = requests bearing an Origin header.'
+                'WebSocket upgrade, OPTIONS, OPTIONS+sid} x {Server, AsyncServer}; plus request pairs on one server (a first request with '
+                'X-Forwarded-* headers, then a second without) judged on the second alone. Non-trivial = requests bearing an Origin header.'
                 % (len(xfps), len(xfhs)),
         'samples': [{'cfg': 'string', 'origin': 'http://liste', 'kind': 'post'},
                     {'cfg': 'none', 'origin': 'https://pub.example', 'XFP': 'https', 'XFH': 'pub.example, inner.lan', 'kind': 'upgrade'},
@@ -229,6 +278,11 @@ def replay(ctx, payload):
     r = payload['replay']
     out = []
     st = {'worlds': 0, 'requests': 0}
+    if r.get('harness') == 'pair':
+        run_pairs(r['impl'], r['cfg'], out, st)
+        for v in out[:5]:
+            print('REPLAY VIOLATION:', v.text)
+        return 1 if out else 0
     run_cases(r['impl'], r['cfg'], r['cred'], [tuple(r['case'])], out, st)
     for v in out:
         print('REPLAY VIOLATION:', v.text)
